@@ -210,15 +210,19 @@ func altValues(fam string, seed int64, tier string) []interface{} {
 		sh := &zoo.Node{Name: "shared"}
 		if tier != "thorough" {
 			return []interface{}{&zoo.Small{Name: "n", N: 9}, zoo.HI64{V: -5},
+				zoo.Derived{Base: zoo.Base{ID: 5, Tag: "t"}, Extra: "x"}, &zoo.Uni2{Élan: 3, Ñu: "ñ"},
 				&zoo.Node{Name: "root", A: sh, B: sh, L: []*zoo.Node{sh}},
 				[]interface{}{zoo.Small{Name: "e0", N: 1}, &zoo.HI64{V: 7}, zoo.Small{Name: "e2", N: 2}}}
 		}
 		return []interface{}{&zoo.Small{Name: "n", N: 9}, zoo.HI64{V: -5}, zoo.Item{K: "k", V: 2},
+			zoo.Derived{Base: zoo.Base{ID: 5, Tag: "t"}, Extra: "x"}, &zoo.Uni2{Élan: 3, Ñu: "ñ"},
 			&zoo.Node{Name: "root", A: sh, B: sh, L: []*zoo.Node{sh}},
 			[]interface{}{zoo.Small{Name: "e0", N: 1}, &zoo.HI64{V: 7}, zoo.Small{Name: "e2", N: 2}}}
 	case "c05": // objects for class-definition variation
 		vs := []interface{}{zoo.Five{A: 1, B: "b", C: 1 << 40, D: true, E: 2.5}, &zoo.Small{Name: "n", N: 9},
-			zoo.HI64{V: -5}, zoo.Item{K: "k", V: 2}}
+			zoo.HI64{V: -5}, zoo.Item{K: "k", V: 2},
+			zoo.Derived{Base: zoo.Base{ID: 5, Tag: "t"}, Extra: "x"},               // wire fields named like the embedded struct's fields
+			&zoo.Uni{Élan: 3, Ärger: "ä", Ñu: true, Ωmega: []int32{1}, Plain: "p"}} // field names outside ASCII
 		sh := &zoo.Node{Name: "shared"}
 		vs = append(vs, &zoo.Node{Name: "root", A: sh, B: sh, L: []*zoo.Node{sh}},
 			[]interface{}{zoo.Small{Name: "e0", N: 1}, &zoo.Five{A: 7}, zoo.Small{Name: "e2", N: 2}},
